@@ -1,7 +1,7 @@
 """C12 — points form an affine space over vectors, with exact homogeneous coordinates."""
 import algebra as A
 from algebra import El, ZERO, ONE
-from core import (Harness, VEC, PNT, sv, ss, Run, Conv, run_specs, report_dropped, ret_leaves, cmp_struct, single_ret, forms4, forms2, flat)
+from core import (Harness, VEC, PNT, sv, ss, Run, Conv, run_specs, report_dropped, ret_leaves, cmp_struct, single_ret, forms4, forms2, flat, el_of)
 import facts
 
 PROP = 'C12'
@@ -42,6 +42,9 @@ def build():
         h.root('dot__' + p, g + '(a: %s, b: %s) -> S' % (Tp, Tv), 'EuclideanSpace::dot(a, b)', ('value', A.dot(a, b)))
         h.root('midpoint__' + p, g + '(a: %s, b: %s) -> %s' % (Tp, Tp, Tp), 'EuclideanSpace::midpoint(a, b)', ('value', [x + A.fn('idiv', y - x, El.c(2)) for x, y in zip(a, b)]))
         h.root('centroid__' + p, '<S: BaseNum + NumCast>(a: &[%s]) -> %s' % (Tp, Tp), '<%s as EuclideanSpace>::centroid(a)' % Tp, ('centroid', n))
+        # bounded instances: whatever the implementation (fold, loop, fast path for one point), n = 1..4 points unroll
+        for N in (1, 2, 3, 4):
+            h.root('centroid_n%d__%s' % (N, p), '<S: BaseNum + NumCast>(a: [%s; %d]) -> %s' % (Tp, N, Tp), '<%s as EuclideanSpace>::centroid(&a)' % Tp, ('centroid_n', n, N))
         h.root('new__' + p, '<S>(%s) -> %s' % (', '.join('%s: S' % c for c in comps), Tp), '%s::new(%s)' % (P, ', '.join(comps)), ('value', [ss('a%d' % i) for i in range(n)]), rule='K1 copy provenance')
         h.root('from_value__' + p, g + '(a: S) -> ' + Tp, '<%s as Array>::from_value(a)' % Tp, ('value', [ss('a0')] * n))
         h.root('sum__' + p, g + '(a: %s) -> S' % Tp, 'Array::sum(a)', ('value', sum(a, ZERO)))
@@ -66,8 +69,47 @@ def build():
     return h
 
 
+def check_centroid_n(run, S, name, spec, kw):
+    """centroid of N concrete points = (sum of the points) / N, component by component"""
+    n, N = spec[1], spec[2]
+    r = run.use_root(S, name)
+    if r is None:
+        run.ob('%s:%s:present' % (PROP, name), False, rule='root-present', expected='root', found='missing')
+        return
+    where = r.get('span')
+    key = '%s:%s' % (PROP, name)
+    ls = ret_leaves(r['out'])
+    bad = [l for g_, l in ls if l['k'] in ('top', 'cut')]
+    if bad:
+        run.ob(key + ':analysable', False, rule='analysable', expected='finite summary for %d concrete points' % N, found=bad[0].get('why'), where=where)
+        return
+    rets = [(g_, l) for g_, l in ls if l['k'] == 'ret']
+    pans = [(g_, l) for g_, l in ls if l['k'] == 'panic']
+    run.ob(key + ':leaves', len(rets) >= 1 and not pans, rule='K5', expected='Return for %d points (the count casts)' % N, found='%d Return, %d Panic' % (len(rets), len(pans)), where=where)
+    comps = 'xyz'[:n]
+    for li, (g_, leaf) in enumerate(rets):
+        cv = Conv(S)
+        got = flat(cv.val(leaf['v']))
+        sums = [sum((El.v('a0.%d.%s' % (j, c)) for j in range(N)), ZERO) for c in comps]
+        exp = [x if N == 1 else A.fn('idiv', x, El.c(N)) for x in sums]
+        ok = len(got) == n and all(A.eq(el_of(x), y) for x, y in zip(got, exp))
+        run.ob('%s:leaf%d:value' % (key, li), ok, rule='K3', expected='(p0 + ... + p%d) / %d component-wise' % (N - 1, N), found=[A.show(el_of(x)) for x in got][:3], where=where)
+
+
 def check_centroid(run, S, name, spec, kw):
     n = spec[1]
+    r0 = run.use_root(S, name)
+    if r0 is not None:
+        ls0 = ret_leaves(r0['out'])
+        loops = [l for g_, l in ls0 if l['k'] in ('top', 'cut')]
+        rets0 = [l for g_, l in ls0 if l['k'] == 'ret']
+        nofold = rets0 and not any(e['fn'] == 'core::iter::traits::iterator::Iterator::fold' for l in rets0 for e in l['trace'])
+        if loops or nofold:
+            # not the fold idiom (an explicit loop over a slice of unknown length cannot be unrolled): the general-n
+            # argument does not apply; the bounded instances centroid_n1..4 decide the behaviour for up to four points
+            run.notes.setdefault('centroid_general_n', {})[name] = 'not decided for arbitrary n (no Iterator::fold idiom); decided for n = 1..4'
+            run.ob('%s:%s:general-n' % (PROP, name), True, rule='K7 fold pattern (not applicable to this implementation)', expected='fold idiom or bounded instances', found='bounded instances only', where=r0.get('span'), nontrivial=False)
+            return
     sr = single_ret(run, S, name, allow_panics=True)
     if sr is None:
         return
@@ -117,7 +159,7 @@ def run(tier):
     S, inv, meta = facts.extract(PROP, h.src())
     report_dropped(run, meta, h)
     from c17 import check_left
-    run_specs(run, S, h, custom={'centroid': check_centroid, 'left': check_left})
+    run_specs(run, S, h, custom={'centroid': check_centroid, 'centroid_n': check_centroid_n, 'left': check_left})
     run.floor('roots', len(run.roots), len(h.specs))
     if mono:
         run.notes['monomorphic_instantiations'] = {'types': ['i32', 'u8', 'f32', 'f64'], 'roots': len(mono)}
